@@ -249,3 +249,64 @@ PROPS["C12"] = {
     "kani": [EXEC["silent"]],
     "overlay_files": EXE_OVERLAY, "assumptions": ["stub: serialize_schedule replaced by a call counter (bitvec/hex are beyond CBMC)"], "not_decided": [],
 }
+
+REPLAY = "shuttle-schedulers/src/replay.rs"
+RANDOM = "shuttle-schedulers/src/random.rs"
+UND = "shuttle-schedulers/src/uncontrolled_nondeterminism.rs"
+SCHED_OVERLAY = ["shuttle-schedulers/src/replay.rs.append.rs", "shuttle-schedulers/src/random.rs.append.rs",
+                 "shuttle-schedulers/src/round_robin.rs.append.rs", "shuttle-schedulers/src/uncontrolled_nondeterminism.rs.append.rs",
+                 "shuttle-schedulers/src/annotation.rs.append.rs", "shuttle-engine/src/scheduler/metrics.rs.append.rs",
+                 "shuttle-engine/src/runtime/runner.rs.append.rs"]
+A_ENV = "stubs: std::env::var -> NotPresent, shuttle_engine::seed_from_env -> identity (environment reads are unsupported foreign calls)"
+SCH = {
+    "box": K("C08.wrap.box_dyn", "c08_wrap_box_dyn_transparent", "Box<dyn Scheduler + Send> forwards next_task/next_u64/new_execution once, unchanged",
+             ["shuttle-engine/src/scheduler/mod.rs::impl Scheduler for Box<dyn Scheduler + Send>"]),
+    "metrics": K("C08.wrap.metrics", "c08_wrap_metrics_transparent", "MetricsScheduler is transparent for every metric history",
+                 ["shuttle-engine/src/scheduler/metrics.rs::MetricsScheduler::{next_task,next_u64,new_execution}"]),
+    "portfolio": K("C08.wrap.portfolio", "c08_wrap_portfolio_transparent", "PortfolioStoppableScheduler is transparent while the stop flag is clear",
+                   ["shuttle-engine/src/runtime/runner.rs::PortfolioStoppableScheduler"]),
+    "portfolio_stop": K("C08.wrap.portfolio_stops", "c08_wrap_portfolio_stops", "stop flag set => next_task and new_execution return None without consulting the inner scheduler",
+                        ["shuttle-engine/src/runtime/runner.rs::PortfolioStoppableScheduler"]),
+    "annotation": K("C08.wrap.annotation", "c08_wrap_annotation_transparent", "AnnotationScheduler is transparent (feature annotation off)",
+                    ["shuttle-schedulers/src/annotation.rs::AnnotationScheduler"], crate=SCHED),
+    "und_alt": K("C01.und.new_execution_alternates", "c01_und_new_execution_alternates",
+                 "new_execution alternates recording/checking; the inner scheduler starts a new execution only when a recording starts",
+                 [UND + "::new_execution"], crate=SCHED),
+    "und_reject": K("C01.und.rejects_different_offer", "c01_und_check_rejects_different_offer",
+                    "checking mode: a different offered set is rejected by a panic", [UND + "::next_task"], crate=SCHED, should_panic=True),
+    "rr_budget": K("C13.budget.round_robin", "c13_budget_round_robin", "forall (iterations,max): new_execution is Some <=> iterations < max; iterations' == iterations + [Some]",
+                   ["shuttle-schedulers/src/round_robin.rs::new_execution"], crate=SCHED),
+    "rr_next": K("C08.rr.next_task", "c08_rr_next_task_in_offered", "answer is the offered task after `current` (wrapping); always offered",
+                 ["shuttle-schedulers/src/round_robin.rs::next_task"], crate=SCHED),
+    "replay_next": K("C01.replay.next_task", "c01_replay_next_task",
+                     "no target clock: Some(t), cursor+1 <=> steps[cursor]==Task(t) and t offered; not offered => None, cursor unchanged (allow_incomplete); end of schedule => None",
+                     [REPLAY + "::next_task"], crate=SCHED),
+    "replay_u64": K("C01.replay.next_u64", "c01_replay_next_u64", "at a Random marker: cursor+1 and the value is the data stream's next value",
+                    [REPLAY + "::next_u64"], crate=SCHED),
+    "replay_ref1": K("C01.replay.refuses_decision_at_random_marker", "c01_replay_refuses_decision_at_random_marker",
+                     "a decision requested where the schedule has a Random marker is refused (panic)", [REPLAY + "::next_task"], crate=SCHED, should_panic=True),
+    "replay_ref2": K("C01.replay.refuses_draw_at_task_step", "c01_replay_refuses_draw_at_task_step",
+                     "a draw requested where the schedule has a task step is refused (panic)", [REPLAY + "::next_u64"], crate=SCHED, should_panic=True),
+    "replay_once": Kb("C01.replay.new_execution_once", "c01_replay_new_execution_once",
+                      "exactly one execution; its data stream restarts at seed_from_u64(schedule.seed)", [REPLAY + "::new_execution"], BOUND_SEEDS, crate=SCHED),
+    "rand_budget": K("C13.budget.random", "c13_budget_random",
+                     "forall (iterations,max): Some <=> iterations < max; CurrentSeedDropGuard holds the running iteration's seed, cleared at exhaustion",
+                     [RANDOM + "::new_execution"], crate=SCHED),
+    "rand_repro": Kb("C10.random.iteration_reproducible", "c10_random_iteration_reproducible",
+                     "after any history, new_execution's seed s reproduces the iteration: new_from_seed(s,1).new_execution() has equal seed, scheduler rng and data rng; then None",
+                     [RANDOM + "::new_execution", RANDOM + "::new_from_seed"], BOUND_SEEDS + "; history <= 1 earlier execution", crate=SCHED),
+    "rand_next": Kb("C10.random.next_task", "c10_random_next_task",
+                    "answer is offered; depends only on (rng, number offered): equal for different current / yield flag",
+                    [RANDOM + "::next_task"], BOUND_SEEDS + "; <= 3 offered; rand's rejection loop within the unwind bound", crate=SCHED, timeout_s=1200),
+}
+PROPS["C08"]["kani"] += [SCH[k] for k in ("box", "metrics", "portfolio", "portfolio_stop", "annotation", "rr_next")]
+PROPS["C08"]["overlay_files"] += SCHED_OVERLAY
+PROPS["C01"]["kani"] += [SCH[k] for k in ("replay_next", "replay_u64", "replay_ref1", "replay_ref2", "replay_once", "und_alt", "und_reject")]
+PROPS["C01"]["overlay_files"] += SCHED_OVERLAY
+PROPS["C13"]["kani"] += [SCH["rr_budget"], SCH["rand_budget"], SCH["replay_once"]]
+PROPS["C13"]["overlay_files"] += SCHED_OVERLAY
+PROPS["C13"]["assumptions"] += [A_ENV]
+PROPS["C10"]["kani"] += [SCH["rand_budget"], SCH["rand_repro"], SCH["rand_next"]]
+PROPS["C10"]["overlay_files"] += SCHED_OVERLAY
+PROPS["C10"]["assumptions"] += [A_ENV]
+PROPS["C12"]["kani"] += [SCH["portfolio_stop"]]
